@@ -155,7 +155,7 @@ func checkC13(c *c13Case) (ds []hx.Discrepancy, accepted bool) {
 
 func fuzzText(t *rapid.T, text string) string {
 	toks := []string{"{", "}", "(", ")", "[", "]", "!", ":", "=", "|", "&", "@", "\"", "\"\"\"", "type ", "extend ", "input ", "enum ", "union ", "interface ",
-		"scalar ", "directive ", "schema ", "implements ", " on ", "Int", "Nope", "__x", "@skip(if: true)", "@deprecated", "@deprecated(reason: 3)", "\n", "#", ","}
+		"scalar ", "directive ", "schema ", "implements ", " on ", "Int", "Nope", "__x", "@skip(if: true)", "@deprecated", "@deprecated(reason: 3)", "\n", "#", ",", "@nope!", "@[nope]", "@deprecated!", "!"}
 	bs := []byte(text)
 	for i := 0; i < rapid.IntRange(1, 3).Draw(t, "nMut"); i++ {
 		if len(bs) == 0 {
